@@ -26,7 +26,9 @@ func init() {
 		ruleV9(c, "C11.V9")
 		ruleL2(c, "C11.V10")
 		ruleL4(c, "C11.V11")
+		ruleL5(c, "C11.V14")
 		ruleKind(c, "C11.V12")
+		ruleNlinkFloor(c, "C11.V13")
 	}
 }
 
@@ -937,5 +939,53 @@ func ruleKind(c *Ctx, id string) {
 				R.Check(ok, id, fmt.Sprintf("%s|%s on a handle's inode is for regular files only", h.Name(), what), P.Pos(call.Pos()), "Inode."+what+" on an inode obtained from the client's handle is dominated by Kind == NF3REG", "guarded", "a client can set the size / content of a directory or symlink through its handle: a truncated directory crashes the next scan in the entry decoder (with the directory locked) and orphans its entries")
 			}
 		}
+	}
+}
+
+// ruleNlinkFloor: fstxn.GetInodeInum panics on an allocated inode whose link
+// count is 0 (V8 records "a non-FREE inode has Nlink >= 1").  DecLink's zero is
+// followed by freeing the inode; every other decrement must keep the count
+// above zero.
+func ruleNlinkFloor(c *Ctx, id string) {
+	V, P, R := c.V, c.P, c.R
+	R.Rule(id, "a live inode's link count never reaches zero: every decrement of Nlink outside Inode.DecLink (whose zero result frees the inode) is dominated by Nlink > 1 on the same inode", 1)
+	n := 0
+	for _, fn := range P.RepoFuncs("nfs", "inode", "dir", "fstxn", "shrinker") {
+		if fn == V.DecLink {
+			continue
+		}
+		for _, w := range FieldWrites(fn) {
+			if w.Type != V.Inode || w.Field != "Nlink" {
+				continue
+			}
+			bo, ok := w.Val.(*ssa.BinOp)
+			if !ok || bo.Op != token.SUB {
+				continue
+			}
+			n++
+			base := stripConv(w.Base)
+			g := guardedBy(fn, w.Instr.Block(), func(cd Cond) (bool, bool) {
+				nm, fl, b2, _ := loadedField(cd.X)
+				k, isk := constInt(cd.Y)
+				if nm != V.Inode || fl != "Nlink" || b2 != base || !isk {
+					return false, false
+				}
+				switch {
+				case cd.Op == token.GTR && k >= 1:
+					return true, true
+				case cd.Op == token.GEQ && k >= 2:
+					return true, true
+				case cd.Op == token.LEQ && k >= 1:
+					return true, false
+				case cd.Op == token.LSS && k >= 2:
+					return true, false
+				}
+				return false, false
+			})
+			R.Check(g, id, FuncName(ownerOf(fn))+"|Nlink decrement keeps the count positive", P.Pos(w.Instr.Pos()), "the decrement is dominated by Nlink > 1 on the same inode", "guarded", "the count of a live directory can reach 0 (RENAME does not move the '..' link along, see the known finding under C04.S3): the next request naming it panics in GetInodeInum, on every restart too")
+		}
+	}
+	if n == 0 {
+		R.Pass(id, "Nlink|no decrement outside DecLink", "?", "nothing to guard", "no such decrement")
 	}
 }
